@@ -102,15 +102,21 @@ def upper_byte(c):
     return c - 32 if (97 <= c and c <= 122) else c
 
 
+def code_at(s, i):
+    """code of element i of a str (code point) or bytes (byte)"""
+    c = s[i]
+    return c if isinstance(c, int) else ord(c)
+
+
 def q_step(quoter, B, p):
     """(unit, consumed) for the token that starts at byte p of B"""
     lit_set, protected, qs, requote = config_of(quoter)
     n = len(B)
-    ch = B[p]
+    ch = code_at(B, p)
     if requote and ch == 37:
         if p + 2 < n:
-            h1 = hexval(B[p + 1])
-            h2 = hexval(B[p + 2])
+            h1 = hexval(code_at(B, p + 1))
+            h2 = hexval(code_at(B, p + 2))
             if h1 >= 0 and h2 >= 0:
                 v = h1 * 16 + h2
                 if v < 128 and chr(v) in lit_set and not (chr(v) in protected):
@@ -154,3 +160,46 @@ def lemma_unit_alphabet(quoter, B, p):
 
 def lemma_requires(quoter, B, p):
     return 0 <= p and p < len(B)
+
+
+# ---------------------------------------------------------------- the compiled quoter works on code points
+
+def pct(b):
+    return (37, hexch(b // 16), hexch(b % 16))
+
+
+def utf8_unit(cp):
+    """percent-encoded UTF-8 bytes of a code point (RFC 3629 arithmetic); a lone surrogate has
+    no encoding and is dropped"""
+    if cp < 128:
+        return pct(cp)
+    if cp < 2048:
+        return pct(192 + cp // 64) + pct(128 + cp % 64)
+    if 55296 <= cp and cp <= 57343:
+        return ()
+    if cp < 65536:
+        return pct(224 + cp // 4096) + pct(128 + (cp // 64) % 64) + pct(128 + cp % 64)
+    return pct(240 + cp // 262144) + pct(128 + (cp // 4096) % 64) + pct(128 + (cp // 64) % 64) + pct(128 + cp % 64)
+
+
+def q_step_cp(quoter, S, p):
+    """(unit, consumed) for the token that starts at code point p of S: the byte-level step on
+    ASCII characters, and the escapes of all UTF-8 bytes of a non-ASCII character at once"""
+    ch = code_at(S, p)
+    if ch < 128:
+        return q_step(quoter, S, p)
+    return utf8_unit(ch), 1
+
+
+def do_quote_requires(self, val, length, kind, data, writer):
+    return length == len(val)
+
+
+def unit_is_input(unit, S, p, consumed):
+    """the token's canonical spelling is the text that was consumed (the token changes nothing)"""
+    if len(unit) != consumed:
+        return False
+    ok = True
+    for i in range(len(unit)):
+        ok = ok and unit[i] == code_at(S, p + i)
+    return ok
